@@ -104,6 +104,10 @@ func (d *directEnv) cause(kind string) {
 		w.g.Sleep(d.sc.cfg.PI + d.sc.cfg.PT + 10*time.Millisecond)
 	case "send":
 		go w.Send(sid, SendOpt{Size: 5})
+	case "poll":
+		if c.Kind == "polling" {
+			sc.doPoll(c)
+		}
 	case "wrongdir":
 		w.Cause(sid, "error")
 		if c.Kind == "polling" {
@@ -152,6 +156,61 @@ func closeWinScenario(name, kind, point, cause string, discard, pendingPoll, buf
 			g.ReleaseAll()
 		}
 		d.sc.settle()
+		d.finish()
+	}}
+}
+
+// (1b) C12: a graceful Close that has seen packets pending but has not yet registered its "drain" listener, while the
+// flush that empties the buffer runs to completion (missed wake-up): the client then keeps polling and must be sent the
+// close packet; the session ends with "forced close", not at the next heartbeat deadline.
+const closeWaitPoint = "log:there are %d remaining packets in the buffer, waiting for the 'drain' event"
+
+func closeDrainScenario(name, kind string, viaFlushWin, wait bool) Scenario {
+	return Scenario{Name: name, Run: func(t *testing.T, rec *Rec, g *Gates) {
+		cfg := EngCfg{PI: 25 * time.Second, PT: 20 * time.Second}
+		d := newDirect(t, rec, g, cfg, kind)
+		if d.sid == "" {
+			d.w.Finish()
+			return
+		}
+		w, sc, c := d.w, d.sc, d.c
+		if viaFlushWin {
+			// a flush in progress holds the batch (its flush listeners are running) when Close looks
+			if kind == "polling" {
+				sc.doPoll(c)
+				sc.settle()
+			}
+			g.Park("L.flush", true)
+			go w.Send(d.sid, SendOpt{Size: 5})
+			sc.settle()
+			g.Park("L.flush", false)
+		} else {
+			w.Send(d.sid, SendOpt{Size: 5}) // buffered: no poll is pending
+			sc.settle()
+		}
+		g.Park(closeWaitPoint, true)
+		go w.Close(d.sid, false)
+		sc.settle()
+		g.Park(closeWaitPoint, false)
+		if viaFlushWin {
+			g.Release("L.flush") // the batch is handed over and "drain" is emitted: nobody listens yet
+		} else {
+			sc.doPoll(c) // the poll takes the buffer: flush, drain
+		}
+		sc.settle()
+		g.ReleaseAll() // Close goes on: registers its listener
+		sc.settle()
+		for i := 0; i < 3 && !c.dead; i++ {
+			sc.doPoll(c)
+			sc.settle()
+		}
+		if wait { // no expectation stated: the lingering session meets the heartbeat deadline
+			w.g.Sleep(cfg.PI + cfg.PT + time.Second)
+			sc.settle()
+		} else {
+			w.Expect(d.sid, "drained")
+			w.Expect(d.sid, "closed")
+		}
 		d.finish()
 	}}
 }
@@ -581,6 +640,11 @@ func directFamily() []Scenario {
 		for _, proto := range []int{4, 3} {
 			out = append(out, beatCloseScenario(fmt.Sprintf("beatclose_after%v_v%d", after, proto), after, proto))
 		}
+	}
+	for _, wait := range []bool{false, true} {
+		out = append(out, closeDrainScenario(fmt.Sprintf("closedrain_polling_buffered_w%v", wait), "polling", false, wait),
+			closeDrainScenario(fmt.Sprintf("closedrain_polling_flushwin_w%v", wait), "polling", true, wait),
+			closeDrainScenario(fmt.Sprintf("closedrain_websocket_flushwin_w%v", wait), "websocket", true, wait))
 	}
 	for _, kind := range []string{"polling", "websocket"} {
 		for _, point := range closePoints {
